@@ -334,6 +334,19 @@ func genC11(g *Gen) {
 		return out
 	}
 
+	// (0) long inputs (lengths incl. thresholds a change introduced into the source)
+	for li, n := range longLens(g.Thorough()) {
+		if !g.Mine() {
+			continue
+		}
+		a, b := ints(longSlice(n, li)), ints(longSlice(n/2+3, li+1))
+		ops := []string{"unique " + a, "dup " + a, "dupidx " + a, "inter [" + a + "]", "inter [" + a + "," + b + "]",
+			"without " + a + " [0,1,-2]", "diff " + a + " " + b, "diff " + b + " " + a, "union [" + a + ",[" + b + "]]"}
+		for _, f := range intFns {
+			ops = append(ops, "uniqueby "+f+" "+a, "interby "+f+" ["+a+","+b+"]", "diffby "+f+" "+a+" "+b)
+		}
+		g.Emit("c11", []string{"int"}, ops)
+	}
 	// (1) one-slice functions: every slice up to length 6 over 4 values (thorough: 7)
 	l1 := 6
 	if g.Thorough() {
